@@ -85,7 +85,7 @@ def obligations(r, tier, seed):
                 if p not in fixed_pos:
                     k.check(v.fixed == before_fixed[p], "fixed flag of free vertex %d untouched" % p)
         obs.append(Ob("C06/reduced-problem/%s" % s["name"], ob2, scope="shape-bounded", bound="shape " + s["name"],
-                      funcs=FUNCS, solver="constrained", light=not has_se3(s)))
+                      funcs=FUNCS, solver="constrained", light=not has_se3(s), eager=(s["pattern"].startswith("real") and has_se3(s))))
 
     # ---- the fixed set is the set of vertices marked AT THE TIME OF THE CALL (histories: marks changed between calls)
     from gsv.specs import gn
